@@ -4,9 +4,9 @@ not own.
 
 Every op line is self-contained:
 
-  op <id> <opname> <pkg> (cfg u s x z l) <parts…>
+  op <id> <opname> <pkg> (cfg u s x v z l) <parts…>
 
-`cfg` = the five model variant flags (unnamedFixed shadowFixed crossFixed zeroFixed lhsFixed), parts
+`cfg` = the six model variant flags (unnamedFixed shadowFixed crossFixed voidFixed zeroFixed lhsFixed), parts
 are lists with a head atom:
   (ps (<name> Z<k>)…)   parameters, `<>` = unnamed, `_` = blank; Z<k> = type of the corpus table
                         (bound by a `ty Z<k> <wire type>` prelude line)
@@ -59,8 +59,9 @@ def bit : SExp → Option Bool
 def parseFlags (args : List SExp) : Option Flags := do
   let c ← findList args "cfg"
   match ← c.mapM bit with
-  | [u, s, x, z, l] => some { plumb := { unnamedFixed := u, shadowFixed := s, crossFixed := x },
-                              chain := { zeroFixed := z, lhsFixed := l } }
+  | [u, s, x, v, z, l] =>
+    some { plumb := { unnamedFixed := u, shadowFixed := s, crossFixed := x, voidFixed := v },
+           chain := { zeroFixed := z, lhsFixed := l } }
   | _ => none
 
 def tyId : SExp → Option Nat
@@ -127,8 +128,9 @@ def showTResult (r : ErrChain.TResult Nat Err) : String :=
   s!"o:{o};e:{showErr r.err};l:{showLog r.log}"
 
 /-- why a C15-style wrapper over the effective parameter names does not compile -/
-def whyNames (ns : List Name) (binders : List Name) : String :=
-  if ns.any (· == []) then "unnamed"
+def whyNames (ns : List Name) (binders : List Name) (void : Bool := false) : String :=
+  if void then "void"
+  else if ns.any (· == []) then "unnamed"
   else if ns.any (fun n => binders.contains n) then "shadow"
   else if !Plumb.nodupB (ns.filter Plumb.usable) then "dup"
   else "other"
@@ -159,22 +161,24 @@ def plumbWf (cfg : Plumb.Cfg) (kind : String) (args : List SExp) : Option (Bool 
   match kind with
   | "curry" | "flip" | "apply" | "uncurrycurry" => do
     let ps ← parseParams args "ps"
+    let n := (← parseTyIds args "rs").length
     let eff := Plumb.effParams cfg [Plumb.fName] Plumb.paramPrefix ps
-    let why := whyNames (Plumb.names eff) [Plumb.fName]
+    let why := whyNames (Plumb.names eff) [Plumb.fName] (n == 0 && !cfg.voidFixed)
     match kind with
-    | "curry" => some (Plumb.wrapperWellFormed (Plumb.curryTm cfg ps), why)
-    | "flip" => some (Plumb.wrapperWellFormed (Plumb.flipTm cfg ps), why)
-    | "apply" => some (Plumb.wrapperWellFormed (Plumb.applyTm cfg ps), why)
+    | "curry" => some (Plumb.wrapperWellFormed (Plumb.curryTm cfg ps n), why)
+    | "flip" => some (Plumb.wrapperWellFormed (Plumb.flipTm cfg ps n), why)
+    | "apply" => some (Plumb.wrapperWellFormed (Plumb.applyTm cfg ps n), why)
     | _ =>
       let (first, rest) := Plumb.currySig eff
-      some (Plumb.wrapperWellFormed (Plumb.curryTm cfg ps) &&
-            Plumb.wrapperWellFormed (Plumb.uncurryTm cfg first rest), why)
+      some (Plumb.wrapperWellFormed (Plumb.curryTm cfg ps n) &&
+            Plumb.wrapperWellFormed (Plumb.uncurryTm cfg first rest n), why)
   | "uncurry" => do
     let outer ← parseParams args "outer"
     let inner ← parseParams args "inner"
+    let n := (← parseTyIds args "rs").length
     let (o, i) := Plumb.uncurryParams cfg outer inner
-    some (Plumb.wrapperWellFormed (Plumb.uncurryTm cfg outer inner),
-          whyNames (Plumb.names (o ++ i)) [Plumb.fName])
+    some (Plumb.wrapperWellFormed (Plumb.uncurryTm cfg outer inner n),
+          whyNames (Plumb.names (o ++ i)) [Plumb.fName] (n == 0 && !cfg.voidFixed))
   | "tuple" => do
     let ts ← parseTyIds args "ts"
     some (Plumb.wrapperWellFormed (Plumb.tupleTm ts), "other")
